@@ -37,6 +37,7 @@ const (
 	opWait
 	opCheck
 	opRestart
+	opOutage
 )
 
 type op struct {
@@ -44,6 +45,10 @@ type op struct {
 	Blocks []int // mine: logs per new block; reorg: logs per block of the new branch
 	A, B   uint64
 	F1, F2 bool
+	// mine / reorg: finalise (mode FinA-1, parameter FinB) after the model changed but
+	// before the deliveries are physically sent (0: no)
+	FinA int
+	FinB uint64
 }
 
 type histSeg struct {
@@ -56,6 +61,7 @@ type script struct {
 	L2Gap          bool
 	Hist           []histSeg
 	TailGap        uint64
+	Pace           int // 0: deliveries are never paced; n: wait for a poll after an item with probability 1/n
 	FinMode        int
 	FinP           uint64
 	Inst           []instCfg
@@ -63,16 +69,23 @@ type script struct {
 }
 
 var opNames = map[opKind]string{opMine: "mine", opBurst: "burst", opReorg: "reorg", opFinalise: "finalise", opSubErr: "suberr",
-	opFailWatch: "failwatch", opFailFinal: "failfinalised", opWait: "wait", opCheck: "check", opRestart: "restart"}
+	opFailWatch: "failwatch", opFailFinal: "failfinalised", opWait: "wait", opCheck: "check", opRestart: "restart", opOutage: "outage"}
 
 func (o op) String() string {
 	switch o.K {
 	case opMine:
+		if o.FinA > 0 {
+			return fmt.Sprintf("mine%v+finalise(mode=%d,p=%d)", o.Blocks, o.FinA-1, o.FinB)
+		}
 		return fmt.Sprintf("mine%v", o.Blocks)
 	case opBurst:
 		return fmt.Sprintf("burst(%d blocks x1 log)", o.A)
 	case opReorg:
-		return fmt.Sprintf("reorg(depth=%d,desc=%v,noticeUndelivered=%v,new=%v)", o.A, o.F1, o.F2, o.Blocks)
+		fin := ""
+		if o.FinA > 0 {
+			fin = fmt.Sprintf("+finalise(mode=%d,p=%d)", o.FinA-1, o.FinB)
+		}
+		return fmt.Sprintf("reorg(depth=%d,desc=%v,noticeUndelivered=%v,new=%v)%s", o.A, o.F1, o.F2, o.Blocks, fin)
 	case opFinalise:
 		return fmt.Sprintf("finalise(mode=%d,p=%d)", o.A, o.B)
 	case opSubErr:
@@ -87,13 +100,15 @@ func (o op) String() string {
 		return "check"
 	case opRestart:
 		return fmt.Sprintf("restart(cfg#%d)", o.A)
+	case opOutage:
+		return fmt.Sprintf("outage(reorg depth=%d,desc=%v,new=%v; connection drops right after the notices; %d failed resubscribes; finalise(mode=%d,p=%d))", o.A, o.F1, o.Blocks, o.B, o.FinA-1, o.FinB)
 	}
 	return "?"
 }
 
 func (s *script) String() string {
 	var b strings.Builder
-	fmt.Fprintf(&b, "baseL1=%d baseL2=%d l2gap=%v hist=%v tail=%d fin(mode=%d,p=%d) inst=%+v ops=[", s.BaseL1, s.BaseL2, s.L2Gap, s.Hist, s.TailGap, s.FinMode, s.FinP, s.Inst)
+	fmt.Fprintf(&b, "baseL1=%d baseL2=%d l2gap=%v pace=%d hist=%v tail=%d fin(mode=%d,p=%d) inst=%+v ops=[", s.BaseL1, s.BaseL2, s.L2Gap, s.Pace, s.Hist, s.TailGap, s.FinMode, s.FinP, s.Inst)
 	for i, o := range s.Ops {
 		if i > 0 {
 			b.WriteString(" ")
@@ -191,6 +206,12 @@ func genScript(rng *rand.Rand) *script {
 	if rng.IntN(4) == 0 {
 		s.TailGap = 0
 	}
+	switch rng.IntN(4) {
+	case 0:
+		s.Pace = 1
+	case 1:
+		s.Pace = 3
+	}
 	s.FinMode = rng.IntN(6)
 	s.FinP = rng.Uint64() >> 1
 	s.Inst = []instCfg{genInst(rng)}
@@ -199,8 +220,12 @@ func genScript(rng *rand.Rand) *script {
 	for i := 0; i < nops; i++ {
 		switch x := rng.IntN(1000); {
 		case x < 300:
-			s.Ops = append(s.Ops, op{K: opMine, Blocks: genBlocks(rng, 1+rng.IntN(5))})
-		case x < 312:
+			o := op{K: opMine, Blocks: genBlocks(rng, 1+rng.IntN(5))}
+			if rng.IntN(4) == 0 {
+				o.FinA, o.FinB = 1+rng.IntN(5), rng.Uint64()>>1
+			}
+			s.Ops = append(s.Ops, o)
+		case x < 306:
 			s.Ops = append(s.Ops, op{K: opBurst, A: 130 + uint64(rng.IntN(70))})
 		case x < 400:
 			d := 1 + uint64(rng.IntN(6))
@@ -208,7 +233,11 @@ func genScript(rng *rand.Rand) *script {
 				d = 1 + uint64(rng.IntN(40))
 			}
 			nb := int(min(d, 8)) + rng.IntN(3)
-			s.Ops = append(s.Ops, op{K: opReorg, A: d, F1: rng.IntN(2) == 0, F2: rng.IntN(2) == 0, Blocks: genBlocks(rng, nb)})
+			o := op{K: opReorg, A: d, F1: rng.IntN(2) == 0, F2: rng.IntN(2) == 0, Blocks: genBlocks(rng, nb)}
+			if rng.IntN(3) == 0 {
+				o.FinA, o.FinB = 1+rng.IntN(5), rng.Uint64()>>1
+			}
+			s.Ops = append(s.Ops, o)
 		case x < 600:
 			s.Ops = append(s.Ops, op{K: opFinalise, A: uint64(rng.IntN(5)), B: rng.Uint64() >> 1})
 		case x < 665:
@@ -217,6 +246,10 @@ func genScript(rng *rand.Rand) *script {
 			s.Ops = append(s.Ops, op{K: opFailWatch, A: 1 + uint64(rng.IntN(3))})
 		case x < 725:
 			s.Ops = append(s.Ops, op{K: opFailFinal, A: 1 + uint64(rng.IntN(3))})
+		case x < 750:
+			d := 1 + uint64(rng.IntN(4))
+			s.Ops = append(s.Ops, op{K: opOutage, A: d, B: 1 + uint64(rng.IntN(3)), F1: rng.IntN(2) == 0, F2: rng.IntN(2) == 0,
+				Blocks: genBlocks(rng, int(d)+rng.IntN(3)), FinA: 1 + rng.IntN(4), FinB: rng.Uint64() >> 1})
 		case x < 925:
 			s.Ops = append(s.Ops, op{K: opWait, A: uint64(rng.IntN(5))})
 		case x < 975:
@@ -322,6 +355,16 @@ func (w *world) onHead(in *instance, h *core.L1Head) {
 		}
 		w.violate("record:"+cls, fmt.Sprintf("recorded head L2=%d (%v) while the node had told finalised=%d; designated log: %s", rec.L2, rec.ev, in.lastF, exp))
 	}
+	if rec.ev != nil {
+		for i := in.consumed; i < len(in.queue); i++ {
+			if it := in.queue[i]; it.removed && it.e == rec.ev {
+				w.violate("record:head-is-a-log-whose-removal-notice-sat-unread-in-the-client-channel",
+					fmt.Sprintf("recorded head L2=%d (%v, told finalised=%d) although the removal notice of that log had been delivered into the client's update channel before a subscription failure; "+
+						"after resubscribing the client polled the finalised height before draining the channel", rec.L2, rec.ev, in.lastF))
+				break
+			}
+		}
+	}
 	if st, err := w.storedHead(); err != nil || st == nil || st.L2 != rec.L2 || !st.Hash.Equal(&rec.Hash) || !st.Root.Equal(&rec.Root) {
 		w.violate("record:stored-head-differs-from-announced", fmt.Sprintf("OnNewL1Head announced L2=%d but Blockchain.L1Head() = %+v (err %v)", rec.L2, st, err))
 	}
@@ -344,6 +387,10 @@ func (w *world) onHead(in *instance, h *core.L1Head) {
 // and nothing was reorged meanwhile, the head must be the highest canonical log at or
 // below min(finalised told, latest told) - the scan has to reach it.
 func (w *world) checkCatchupComplete(in *instance) {
+	if in.cancelled {
+		w.st("catchup_scans_cut_short_by_shutdown", 1)
+		return
+	}
 	if in.catchupFault || !in.latestReadOK || !in.haveF {
 		w.st("catchup_scans_with_injected_failure", 1)
 		return
@@ -446,7 +493,24 @@ func (w *world) flush() bool {
 			it := in.queue[in.sent]
 			in.sink <- it.e.update(it.removed)
 			in.sent++
+			left := len(in.queue) - in.sent
 			w.mu.Unlock()
+			// pacing (not part of any verdict): let the client poll / drain in the
+			// middle of a delivery so that polls fall between the items of one reorg
+			if left > 0 && left < 24 && w.sc.Pace > 0 && w.pace.IntN(w.sc.Pace) == 0 {
+				w.mu.Lock()
+				w.st("deliveries_interleaved_with_a_poll", 1)
+				w.mu.Unlock()
+				t := 0
+				if !w.waitFor("pace", func() bool {
+					if t == 0 {
+						t = in.loopPolls + 1
+					}
+					return in.loopPolls >= t || !in.subActive
+				}) {
+					return false
+				}
+			}
 			continue
 		}
 		w.st("sends_held_back_by_full_channel", 1)
@@ -493,6 +557,9 @@ func (w *world) stopInstance() {
 	if in == nil {
 		return
 	}
+	w.mu.Lock()
+	in.cancelled = true
+	w.mu.Unlock()
 	in.cancel()
 	select {
 	case err := <-in.done:
@@ -559,9 +626,12 @@ func (w *world) checkpoint() {
 	w.tr("CHECK quiescent: finalised=%d stored=%s", f, headStr(st))
 	if x == nil {
 		w.st("quiescent_checks_expecting_unchanged_head", 1)
+		if headEq(st, in.baseline) {
+			return
+		}
 		if st == nil {
 			w.violate("quiescent:stored-head-vanished", "stored head disappeared")
-		} else if !headEq(st, in.baseline) {
+		} else {
 			w.violate("quiescent:"+classify(st, in, f, nil), fmt.Sprintf("no delivered, unremoved log at or below finalised=%d, yet stored head is %s (was %s at start of this client)", f, headStr(st), headStr(in.baseline)))
 		}
 		return
@@ -594,6 +664,9 @@ func (w *world) exec(o op) {
 		for _, n := range o.Blocks {
 			w.mineBlock(n, false)
 		}
+		if o.FinA > 0 {
+			w.finalise(o.FinA-1, o.FinB)
+		}
 		w.mu.Unlock()
 		w.flush()
 	case opBurst:
@@ -607,6 +680,9 @@ func (w *world) exec(o op) {
 	case opReorg:
 		w.mu.Lock()
 		w.reorg(o.A, o.F1, o.F2, o.Blocks)
+		if o.FinA > 0 {
+			w.finalise(o.FinA-1, o.FinB)
+		}
 		w.mu.Unlock()
 		w.flush()
 	case opFinalise:
@@ -654,6 +730,32 @@ func (w *world) exec(o op) {
 		default:
 			w.waitFor("subscribed", func() bool { return in.subActive })
 		}
+	case opOutage:
+		// a reorg whose notices (and new-branch logs) reach the client's channel, the
+		// connection dropping right after them, an outage (failed resubscribes) during
+		// which L1 moves on and finalises.
+		w.mu.Lock()
+		in := w.inst
+		if in.subActive && in.sent == len(in.queue) && w.reorg(o.A, o.F1, o.F2, o.Blocks) && len(in.queue)-in.sent <= cap(in.sink)-len(in.sink) {
+			for ; in.sent < len(in.queue); in.sent++ {
+				it := in.queue[in.sent]
+				in.sink <- it.e.update(it.removed)
+			}
+			select {
+			case in.sub.errCh <- errInjected:
+			default:
+			}
+			in.subActive = false
+			w.failWatch += int(o.B)
+			w.st("subscription_errors", 1)
+			w.st("outages_right_after_a_reorg", 1)
+			w.tr("connection dropped right after the reorg notices; %d resubscribes will fail", o.B)
+			w.mineBlock(0, false)
+			w.mineBlock(0, false)
+			w.finalise(o.FinA-1, o.FinB)
+		}
+		w.mu.Unlock()
+		w.flush()
 	case opCheck:
 		w.checkpoint()
 	case opRestart:
@@ -690,6 +792,7 @@ func runCase(r *lib.Run, idx int) {
 		r: r, idx: idx, sc: sc, bc: blockchain.New(memory.New(), &networks.Sepolia),
 		byHash: map[string]*event{}, stats: map[string]int{}, baseL2: sc.BaseL2, l2gap: sc.L2Gap,
 		unclamped: os.Getenv("VERIF_C17_UNCLAMPED") == "1",
+		pace:      lib.Rng("C17/pace", uint64(idx)),
 	}
 	// the L1-head feed must only ever carry recorded heads, in order
 	feedSub := w.bc.SubscribeL1Head()
